@@ -921,6 +921,15 @@ func runC16(c *hc.Ctx) error {
 	}
 	c.Sum.Assumptions = []string{"documents are JSON trees with finite depth; numbers with exponents of moderate size (|e| <= 400)"}
 
+	// the loaders (c16load.go): first, while nothing has been loaded in this process; with a random generator of their own
+	c.Sum.Rule += "; the LOADERS: every built-in set through the real tms20.LoadEmbeddedTileMatrixSet -- first in a process where nothing was loaded (misses), again (hits), reversed, and in seeded random orders with repetitions, unknown ids and ids that path.Join cleans to a built-in file mixed in, the two files that carry the same id member alternating -- and tms20.LoadJSONTileMatrixSet on the same files by path, a missing file, a directory and bytes that are not JSON"
+	c.Sum.Oracle += "; the loaders: every value LoadEmbeddedTileMatrixSet / LoadJSONTileMatrixSet returns equals a fresh json.Unmarshal of the file's bytes (reflect.DeepEqual, nil and empty slices identified) whatever was loaded before, an id without an embedded file is an error, never a panic; the values returned after the whole history are printed and compared by Coq with the decode of the regenerated document of that name"
+	c.Sum.TrustedBase = append(c.Sum.TrustedBase,
+		"source ties C16_source_tie_load_* (translator/tmsload.go -> gen/TmsLoadGen.v, reading of the Go constructs in Tms/GoLoad.v): LoadEmbeddedTileMatrixSet with its package-level cache as a state and LoadJSONTileMatrixSet are regenerated statement by statement and proved to return the model's decode of the file of the id after every history of loads (cache transparency, invariant, no panic); modelled: embed.FS / os.ReadFile as a finite map from names to contents (the embedded file list regenerated from the directory the //go:embed pattern names), encoding/json's text -> tree step and its dispatch to TileMatrixSet.UnmarshalJSON, path.Join, Go maps with string keys; calls are sequential (the cache is an unguarded map); struct copies are shallow: the returned value shares its slices, maps and pointers with the cached one -- recorded in the model (ld_shares), the consequences of a caller writing through them are outside it (no function of /repo does)")
+	if err := c16Loaders(c, vs, &buf); err != nil {
+		return err
+	}
+
 	full, small, err := c16Bases(c)
 	if err != nil {
 		return err
